@@ -8,6 +8,7 @@ import (
 	"io"
 	"strings"
 	"testing"
+	"testing/iotest"
 
 	"github.com/ipfs/go-cid"
 	"github.com/ipfs/go-unixfsnode"
@@ -189,6 +190,19 @@ func TestC19_P_FixtureGenerators(t *testing.T) {
 				if period := rapid.SampledFrom([]int{0, 0, 1, 64, 256}).Draw(t, "period"); period > 0 {
 					src = &periodicReader{period: period, seed: byte(seed)} // a random source may repeat itself: identical chunks
 					opt += fmt.Sprintf(" period=%d", period)
+				}
+				switch rapid.IntRange(0, 7).Draw(t, "finiteSource") {
+				case 0:
+					// a finite source holding exactly the requested bytes, which reports io.EOF together with the last bytes
+					src = iotest.DataErrReader(bytes.NewReader(lcgBytes(size, byte(seed), 0)))
+					opt += " finite+DataErrReader"
+				case 1:
+					src = bytes.NewReader(lcgBytes(size, byte(seed), 0))
+					opt += " finite"
+				case 2:
+					// ... or runs dry before the requested size
+					src = iotest.DataErrReader(bytes.NewReader(lcgBytes(size/2+1, byte(seed), 0)))
+					opt += " short+DataErrReader"
 				}
 				de, err = testutil.UnixFSFile(*ls, size, testutil.WithRandReader(src), testutil.WithChunker(chunker))
 			case "GenerateFile":
